@@ -1,11 +1,15 @@
 #!/bin/bash
 # verify_seed.sh <ID> [variant]: independently confirm a seeded change delivered in /tmp/seed-<ID>/out[/<variant>]:
-# applies patch.diff to the clean scratch worktree /tmp/seed-<ID>/repo, builds, runs the pinned suite
+# applies patch.diff to a clean scratch worktree of /repo HEAD (/tmp/verify/repo, shared, incremental), builds, runs the pinned suite
 # (every stable_pass test of BASELINE.json must pass), runs the demo with and without the patch, leaves the worktree clean.
 ID=$1; V=${2:-}
-W=/tmp/seed-$ID/repo; OUT=/tmp/seed-$ID/out${V:+/$V}; LOG=/tmp/seed-$ID/verify${V:+-$V}.log
-export CARGO_NET_OFFLINE=true CARGO_TARGET_DIR=/tmp/seed-$ID/target RUST_BACKTRACE=0
+# One shared scratch worktree and target directory for all seeds (incremental builds): /tmp/verify/{repo,target}
+W=/tmp/verify/repo; OUT=/tmp/seed-$ID/out${V:+/$V}; LOG=/tmp/seed-$ID/verify${V:+-$V}.log
+export CARGO_NET_OFFLINE=true CARGO_TARGET_DIR=/tmp/verify/target RUST_BACKTRACE=0
+mkdir -p /tmp/verify
+[ -d $W ] || git -C /repo worktree add --detach $W HEAD >/dev/null 2>&1
 cd $W || exit 2
+git checkout -q --detach $(git -C /repo rev-parse HEAD)
 {
 git checkout -q -- . ; git clean -fdq tests 2>/dev/null
 echo "== apply"; git apply $OUT/patch.diff && git diff --stat
@@ -31,7 +35,6 @@ echo "== demo WITH patch"; (cd $W && TRUTH_CORE=$TC bash $OUT/demo.sh $TC >/tmp/
 git checkout -q -- .
 echo "== build without patch"; cargo build --offline 2>&1 | tail -1
 echo "== demo WITHOUT patch"; (cd $W && TRUTH_CORE=$TC bash $OUT/demo.sh $TC >/tmp/seed-$ID/demo_without${V:+-$V}.log 2>&1; echo "exit=$?")
-rm -rf $W/target
 git status --short | grep -v snap.new
 } > $LOG 2>&1
 tail -12 $LOG
